@@ -778,6 +778,13 @@ def rebuild_atom(a: Atom, f):
     new = []
     for x in a.args:
         new.append(_map_arg(x, f))
+    if k == "app" and new and new[0] in ("ceil", "floor", "round", "int") and len(new) >= 2 and isinstance(new[1], NF):
+        c = new[1].as_const()
+        if c is not None:
+            import math
+
+            fn = {"ceil": math.ceil, "floor": math.floor, "round": round, "int": int}[new[0]]
+            return NF.const(fn(c))
     return NF.atom(Atom(k, *new))
 
 
